@@ -164,3 +164,72 @@ Proof.
         cbn [coveredb existsb fst snd]. destruct (Z.ltb_spec i b); [lia|]. rewrite andb_false_r. reflexivity. }
       symmetry. apply G. lia.
 Qed.
+
+(* ---- how many copies of the replacement a region gets: one per merged interval inside it; between one and the number
+        of occurrences inside it for a maximal covered region ---- *)
+Definition inR (a b : Z) (x : iv) : bool := (a <=? fst x) && (snd x <=? b).
+
+Fixpoint disjS (l : list iv) : Prop :=
+  match l with [] => True | a :: t => (forall b, In b t -> snd a <= fst b) /\ disjS t end.
+Lemma disj_disjS : forall m, disj m -> wf m -> disjS m.
+Proof.
+  induction m as [|a m IH]; intros Hd Hw; [exact I|]. inversion Hw as [|? ? Ha Hw']; subst. cbn beta in Ha.
+  assert (Hd' : disj m) by (destruct m; [exact I|cbn [disj] in Hd; tauto]).
+  split; [|apply IH; auto].
+  specialize (IH Hd' Hw'). destruct m as [|c m]; [intros b []|]. cbn [disj] in Hd. destruct Hd as [Hac _].
+  intros b [<-|Hb]; [exact Hac|]. destruct IH as [IH1 _]. specialize (IH1 b Hb).
+  inversion Hw' as [|? ? Hc _]; subst. cbn beta in Hc. lia.
+Qed.
+Lemma disjS_filter f : forall m, disjS m -> disjS (filter f m).
+Proof.
+  induction m as [|a m IH]; intros H; [exact I|]. destruct H as [H1 H2]. cbn [filter]. destruct (f a); [|apply IH; exact H2].
+  split; [|apply IH; exact H2]. intros b Hb. apply filter_In in Hb. apply H1. tauto.
+Qed.
+Lemma choose_all {X Y} (P : X -> Y -> Prop) : forall l, (forall x, In x l -> exists o, P x o) -> exists os, Forall2 P l os.
+Proof.
+  induction l as [|x l IH]; intros H; [exists []; constructor|].
+  destruct (H x (or_introl eq_refl)) as (o & Ho). destruct (IH (fun y Hy => H y (or_intror Hy))) as (os & Hos).
+  exists (o :: os). constructor; assumption.
+Qed.
+
+Lemma F2_length {X Y} (P : X -> Y -> Prop) l os : Forall2 P l os -> length l = length os.
+Proof. induction 1; cbn [length]; congruence. Qed.
+
+Theorem copies_at_most sc m a b : disj m -> wf m -> wf sc ->
+  (forall x, In x m -> exists o, In o sc /\ inside o x) ->
+  (length (filter (inR a b) m) <= length (filter (inR a b) sc))%nat.
+Proof.
+  intros Hd Hw Hws Hhas.
+  pose proof (disjS_filter (inR a b) m (disj_disjS m Hd Hw)) as HD.
+  set (mR := filter (inR a b) m) in *.
+  destruct (choose_all (fun x o => In o sc /\ inside o x) mR) as (os & Hos).
+  { intros x Hx. apply Hhas. apply filter_In in Hx. tauto. }
+  rewrite (F2_length _ _ _ Hos). apply NoDup_incl_length.
+  - (* the chosen occurrences are pairwise different: they lie in disjoint intervals and are non-empty *)
+    clear -Hos HD Hws. induction Hos as [|x o l os [Ho Hi] Hrest IH]; [constructor|]. destruct HD as [HD1 HD2]. constructor; [|apply IH; exact HD2].
+    intros Hin. clear IH. induction Hrest as [|y o' l' os' [Ho' Hi'] Hr IHr]; [destruct Hin|].
+    destruct Hin as [E|Hin].
+    + subst o'. specialize (HD1 y (or_introl eq_refl)). unfold wf in Hws. rewrite Forall_forall in Hws. specialize (Hws o Ho).
+      unfold inside in *. cbn beta in Hws. lia.
+    + apply IHr; auto. intros b0 Hb0. apply HD1. right. exact Hb0. destruct HD2; assumption.
+  - intros o Ho. apply filter_In.
+    assert (G : forall l os, Forall2 (fun x o => In o sc /\ inside o x) l os -> (forall x, In x l -> inR a b x = true) ->
+                forall o, In o os -> In o sc /\ inR a b o = true).
+    { clear. induction 1 as [|x o l os [H1 H2] Hr IH]; intros Hl o' Ho'; [destruct Ho'|]. destruct Ho' as [<-|Ho'].
+      - split; [exact H1|]. specialize (Hl x (or_introl eq_refl)). unfold inR, inside in *.
+        apply andb_prop in Hl. destruct Hl as [L1 L2]. apply Z.leb_le in L1. apply Z.leb_le in L2.
+        apply andb_true_intro. split; apply Z.leb_le; lia.
+      - apply IH; auto. intros y Hy. apply Hl. right. exact Hy. }
+    apply (G mR os Hos); [|exact Ho]. intros x Hx. apply filter_In in Hx. tauto.
+Qed.
+
+Theorem copies_at_least_one sc m a b : wf m -> (forall i, covered m i <-> covered sc i) ->
+  a < b -> (forall i, a <= i < b -> covered sc i) -> ~ covered sc (a - 1) -> ~ covered sc b ->
+  exists x, In x m /\ inR a b x = true.
+Proof.
+  intros Hw Hc Hab Hin Hlo Hhi.
+  assert (Ca : covered m a) by (apply Hc, Hin; lia). destruct Ca as (x & Hx & Hr).
+  exists x. split; [exact Hx|]. unfold inR. apply andb_true_intro. split; apply Z.leb_le.
+  - destruct (Z_lt_le_dec (fst x) a) as [H|H]; [|exact H]. exfalso. apply Hlo. apply Hc. exists x. split; [exact Hx|lia].
+  - destruct (Z_lt_le_dec b (snd x)) as [H|H]; [|exact H]. exfalso. apply Hhi. apply Hc. exists x. split; [exact Hx|lia].
+Qed.
